@@ -121,6 +121,12 @@ class Suite:
             results = [solve.solve_one(j) for j in jobs]
         else:
             results = list(solve.pool().map(solve.solve_one, jobs, chunksize=max(1, len(jobs) // 64)))
-        for g, r in zip(self.goals, results):
+        dump = os.environ.get('PYVC_DUMP')
+        for g, r, j in zip(self.goals, results, jobs):
             g.result = r
+            if dump and g.expect == 'unsat' and r['verdict'] != 'unsat':
+                os.makedirs(dump, exist_ok=True)
+                import re
+                with open(os.path.join(dump, re.sub(r'[^A-Za-z0-9_.@-]+', '_', g.ob.name)[:120] + '.smt2'), 'w') as f:
+                    f.write(j[1])
         return results
